@@ -366,6 +366,38 @@ def dialects (copies : Bool) : Dict → List (Option Int) → List Int
   | _, [] => []
   | d, v :: vs => dialectOf (prepareOptions copies d v).2 :: dialects copies (prepareOptions copies d v).1 vs
 
+/-! ### caller-owned arguments (access kind "caller-owned argument")
+
+The objects an embedding application passes to `generate_data` / `generate` (`user_options`, `plugin_options`,
+lists, open files) are not process cells, but an application that passes the SAME object to several calls
+turns them into state that crosses runs.  A call is modelled as a function from the argument object to
+(the object afterwards, what the run observes). -/
+
+/-- consecutive calls that are handed one and the same argument object -/
+def runShared {A O : Type} : List (A → A × O) → A → List O
+  | [], _ => []
+  | c :: cs, a => (c a).2 :: runShared cs (c a).1
+
+/-- `merge_options(option_definitions, user_options, …)` on the caller's `user_options`: a supplied value wins,
+    else the declared default, else "No definition supplied" (`none`).  `writesBack` is the access kind of the
+    argument: `false` = read only (pinned: `Gen.GlobalState.callerArgWrites = []`), `true` = the resolved
+    default is stored into the caller's dict (`user_options.setdefault(name, default)`).
+    Returns (user_options afterwards, the options of the run). -/
+def mergeOptions (writesBack : Bool) : List (String × Option Int) → Dict → Dict → Dict × Option Dict
+  | [], user, acc => (user, some acc)
+  | (n, dflt) :: ds, user, acc =>
+    match user.get? n with
+    | some v => mergeOptions writesBack ds user (acc.set n v)
+    | none =>
+      match dflt with
+      | some d => mergeOptions writesBack ds (if writesBack then user.set n d else user) (acc.set n d)
+      | none => (user, none)
+
+/-- `generate`: `user_options = user_options or {}` — an empty dict is replaced by a fresh one -/
+def generateOptions (writesBack : Bool) (decls : List (String × Option Int)) (user : Dict) : Dict × Option Dict :=
+  let r := mergeOptions writesBack decls user []
+  (if user.isEmpty then user else r.1, r.2)
+
 /-! ### the entry points of the code (since commit 885750c) -/
 
 /-- `parse_date(d)`: `onlyStrings` is the pinned fact `Gen.GlobalState.cachesOnlyStrings` (true since
@@ -573,6 +605,39 @@ def mutableDefaults : List (String × String × String) :=
     RestrictedPickler, i.e. once per RowHistory, i.e. once per run -/
 def classAttrWrites : List (String × String × String) :=
   [("utils/pickle.py", "_get_RestrictedUnpicklerClass.RestrictedUnpickler.find_class", "RestrictedUnpickler.count")]
+
+/-- caller-owned arguments that leave the scanned code: open files handed to the yaml reader / writer and to
+    `open_file_like`, the output stream and the parent application handed to the Interpreter — objects whose purpose is
+    to be consumed by the call; none of them is a dict or list of settings: (file, function, parameter, where) -/
+def callerArgEscapes : List (String × String × String × String) :=
+  [("api.py", "_get_output_streams", "output_folder", "passed to output_stream_cls(…)"),
+   -- strings / tuples (immutable): the format name and the target tuple
+   ("api.py", "_get_output_streams", "output_format", "passed to output_stream_cls(…)"),
+   ("api.py", "get_output_stream_class", "output_format", "passed to OUTPUT_FORMATS.get(…)"),
+   ("api.py", "stopping_criteria_from_target_number", "target_number", "passed to StoppingCriteria(…)"),
+   ("api.py", "generate_data", "continuation_file", "passed to open_with_cleanup(…)"),
+   ("api.py", "generate_data", "generate_cci_mapping_file", "passed to open_with_cleanup(…)"),
+   ("api.py", "generate_data", "generate_continuation_file", "passed to open_with_cleanup(…)"),
+   ("api.py", "generate_data", "update_input_file", "passed to open_with_cleanup(…)"),
+   ("api.py", "generate_data", "yaml_file", "passed to open_with_cleanup(…)"),
+   ("data_generator.py", "generate", "open_yaml_file", "passed to getattr(…)"),
+   ("data_generator.py", "generate", "output_stream", "passed to Interpreter(…)"),
+   ("data_generator.py", "generate", "parent_application", "passed to Interpreter(…)"),
+   ("data_generator.py", "generate", "stopping_criteria", "passed to SnowfakeryApplication(…)"),
+   ("data_generator.py", "load_continuation_yaml", "continuation_file", "passed to yaml.safe_load(…)"),
+   ("data_generator.py", "save_continuation_yaml", "continuation_file", "passed to yaml.dump(…)"),
+   ("parse_recipe_yaml.py", "parse_file", "stream", "passed to getattr(…)"),
+   ("parse_recipe_yaml.py", "parse_recipe", "stream", "passed to getattr(…)"),
+   ("parse_recipe_yaml.py", "yaml_safe_load_with_line_numbers", "filestream", "passed to yaml.SafeLoader(…)")]
+
+/-- the settings-like arguments whose flow the model speaks about -/
+def settingsArgCells : List (String × String × String) :=
+  [("api.py", "generate_data", "user_options"), ("api.py", "generate_data", "plugin_options"),
+   ("api.py", "generate_data", "output_files"), ("api.py", "generate_data", "dburls"),
+   ("api.py", "generate_data", "update_passthrough_fields"), ("api.py", "generate_data", "load_declarations"),
+   ("data_generator.py", "generate", "user_options"), ("data_generator.py", "generate", "plugin_options"),
+   ("data_generator.py", "generate", "update_passthrough_fields"),
+   ("data_generator.py", "merge_options", "user_options")]
 
 end Known
 
